@@ -9,7 +9,7 @@
 From Coq Require Import List Bool ZArith.
 From Coq.Strings Require Import Byte.
 From GI Require Import Lib.Bytes Gen.TsBatchConsts TsDeadline.TsDeadline TsDeadline.TsDeadlineFacts
-  TsDeadline.TsTimed TsDeadline.TsTimedFacts TsDeadline.TsTimedBounds.
+  TsDeadline.TsTimed TsDeadline.TsTimedFacts TsDeadline.TsTimedBounds TsDeadline.TsRuns TsDeadline.TsRunsFacts.
 Import ListNotations.
 Local Open Scope Z_scope.
 
@@ -211,3 +211,84 @@ Theorem C17_ta_runt_windows : forall u now_ eps D e d sg s,
   (forall r, at_ret s = Some r -> r <= D + eps - (grace_reserve - 1) * g + 10 * sg).
 Proof. exact ta_runt_windows. Qed.
 Print Assumptions C17_ta_runt_windows.
+
+(* ---- several RunT calls made by one process (TsRuns.v).  [run_calls_now cs]: what each call of the
+   history cs computes (grace period, expiry of its context) for the source as it is — the generated
+   constant says whether the grace period is a variable of RunT's body or package-level state;
+   [single_call c]: what a fresh process computes for c. *)
+
+(* The outcome of a RunT call does not depend on the calls made before it. *)
+Theorem C17_runs_independent : forall cs k c,
+  nth_error cs k = Some c -> nth_error (run_calls_now cs) k = Some (single_call c).
+Proof. exact runs_independent. Qed.
+Print Assumptions C17_runs_independent.
+
+(* A call of a fresh process is the RunT of the theorems above. *)
+Theorem C17_single_call_is_runt : forall c D, c_deadline c = Some D ->
+  r_grace (single_call c) = grace (D - c_now c) /\
+  r_ctx (single_call c) = Some (ctx_deadline (c_now c) (c_eps c) D).
+Proof. exact single_call_is_runt. Qed.
+Print Assumptions C17_single_call_is_runt.
+
+(* With a grace period kept by the package between calls it is false: after a call with a deadline an
+   hour away, the context of a call with a deadline five seconds away is born expired. *)
+Theorem C17_kept_grace_period_refuted :
+  exists cs k c r, nth_error cs k = Some c /\ nth_error (run_calls false pstate0 cs) k = Some r /\
+    r <> single_call c /\
+    (exists x, r_ctx r = Some x /\ x < c_now c) /\ (exists y, r_ctx (single_call c) = Some y /\ c_now c < y).
+Proof. exact kept_grace_refuted. Qed.
+Print Assumptions C17_kept_grace_period_refuted.
+
+(* "Scripts that finish earlier are unaffected by the deadline", in any history: a command of call k
+   that exits more than a slack before that call's context expires is never signalled and returns
+   Wait's own result, whatever calls came before; and in a call without a deadline nothing is ever
+   signalled. *)
+Theorem C17_early_unaffected_in_any_history : forall sigma cs k c D ee i o r,
+  nth_error cs k = Some c -> c_deadline c = Some D -> nth_error (run_calls_now cs) k = Some r ->
+  bounded sigma o -> 0 <= c_eps c -> ee + sigma < D - grace_reserve * grace (D - c_now c) ->
+  res (wos (call_params r (Some ee) i) o) = RWait /\ t_int (wos (call_params r (Some ee) i) o) = None /\
+  t_kill (wos (call_params r (Some ee) i) o) = None.
+Proof. exact early_unaffected_in_any_history. Qed.
+Print Assumptions C17_early_unaffected_in_any_history.
+
+Theorem C17_no_deadline_never_signals : forall cs k c ee i o r,
+  nth_error cs k = Some c -> c_deadline c = None -> nth_error (run_calls_now cs) k = Some r ->
+  res (wos (call_params r (Some ee) i) o) = RWait /\ t_int (wos (call_params r (Some ee) i) o) = None /\
+  t_kill (wos (call_params r (Some ee) i) o) = None.
+Proof. exact no_deadline_never_signals. Qed.
+Print Assumptions C17_no_deadline_never_signals.
+
+(* ---- the exit status of the command plays no part in the attribution.  [wos_return wins ie we]: the
+   last lines of waitOrStop (ie: the helper goroutine's value, we: cmd.Wait's); [fg_exec_gen wins]:
+   cmdExec on top of it; interrupt_error_wins: what the source has (generated). *)
+
+(* Once the helper goroutine reports the interrupt, that is what waitOrStop returns, whatever
+   cmd.Wait returned. *)
+Theorem C17_attribution_ignores_exit_status : forall ie w1 w2, ie <> WNil ->
+  wos_return interrupt_error_wins ie w1 = ie /\
+  wos_return interrupt_error_wins ie w1 = wos_return interrupt_error_wins ie w2.
+Proof. exact attribution_status_free. Qed.
+Print Assumptions C17_attribution_ignores_exit_status.
+
+(* cmdExec with the status explicit is the cmdExec of the theorems above. *)
+Theorem C17_exec_with_status_is_exec : forall p o wait_ok neg,
+  fg_exec_gen interrupt_error_wins p o wait_ok neg = fg_exec p o wait_ok neg.
+Proof. exact fg_exec_gen_now. Qed.
+Print Assumptions C17_exec_with_status_is_exec.
+
+(* A foreground command blocked until the context expired is reported with the timed-out message
+   whatever status it exits with on the interrupt — 0 included. *)
+Theorem C17_blocked_timed_out_any_status : forall sigma now eps D i o wait_ok neg,
+  bounded sigma o -> match i with Some d => 0 <= d | None => True end ->
+  fg_exec_gen interrupt_error_wins (fg_params now eps D None i) o wait_ok neg = Some (XTimedOut timed_out_message).
+Proof. exact blocked_timed_out_any_status. Qed.
+Print Assumptions C17_blocked_timed_out_any_status.
+
+(* With the interrupt error returned only when cmd.Wait failed too, a blocked command that exits 0
+   on the interrupt is a success: refuted by witness. *)
+Theorem C17_success_on_interrupt_refuted :
+  exists now eps D i o, bounded 0 o /\
+    fg_exec_gen false (fg_params now eps D None (Some i)) o true false = Some XOk /\
+    fg_exec_gen interrupt_error_wins (fg_params now eps D None (Some i)) o true false = Some (XTimedOut timed_out_message).
+Proof. exact success_on_interrupt_refuted. Qed.
+Print Assumptions C17_success_on_interrupt_refuted.
